@@ -13,6 +13,23 @@ VARNAMES = ['X', 'Y', 'Z', 'U', 'W', 'X', 'Y', 'Z', '_1', '_2', 'X1', 'X2', 'L1'
             'A1', 'Var1', 'DoBreak', 'CutIf1', '_l1', 'V1']
 
 
+def near_reserved_vars():
+    """Prolog variable names at and around the names that mean something to Python or to the loaded code's
+    context: the name itself, with underscores added or taken away at the end, with one in front, with a digit"""
+    import re
+    base = ['True', 'False', 'None', '__debug__', '__builtins__', 'ATOM_NIL', '__import__', '__name__', '__class__', '__doc__',
+            '__file__', '__spec__', '__loader__', 'Exception', 'NotImplemented', 'Ellipsis', '_', '__', 'YP', 'Atom', 'Variable', 'Functor']
+    out = []
+    for n in base:
+        for v in (n, n + '_', n + '__', n[:-1], n.rstrip('_'), n.rstrip('_') + '_', '_' + n, n + '1', n.lstrip('_'), n.strip('_')):
+            if re.match(r'[A-Z_][A-Za-z0-9_]*\Z', v) and v not in out:
+                out.append(v)
+    return out
+
+
+NEAR_RESERVED = near_reserved_vars()
+
+
 def gen_term(rng, vars_, d, anon_ok=True, atoms=ATOMS):
     r = rng.random()
     if d <= 0 or r < 0.35:
@@ -86,7 +103,9 @@ def gen_query_args(rng, arity, qvars):
 # -- recursive templates over random data ------------------------------------
 
 def _rand_list(rng, n=None, atoms=ATOMS):
-    n = rng.choice([0, 1, 2, 3, 4, 5]) if n is None else n
+    if n is None:
+        # mostly small; now and then around the sizes where a fast path could switch (16, 32)
+        n = rng.choice([0, 1, 2, 3, 4, 5]) if rng.random() < 0.93 else rng.choice([15, 16, 17, 18, 24, 33, 40])
     return L([rng.choice([A(x) for x in atoms] + [I(1), C('f', A('a'))]) for _ in range(n)])
 
 
@@ -129,6 +148,17 @@ TEMPLATES = {
              (C('last', L([V('_')], T), X), ('call', C('last', T, X)))],
     'dup': [(C('dup', NIL, NIL), ('true',)),
             (C('dup', L([X], T), L([X, X], R)), ('call', C('dup', T, R)))],
+    # one variable-to-variable link per recursion level (epsilon rules of difference-list code): the variable
+    # bound FIRST is the head of a chain whose end is bound last, by a goal with several answers
+    'steps': [(C('skip', V('S'), V('S')), ('true',)),
+              (C('steps', NIL, V('S'), V('S')), ('true',)),
+              (C('steps', L([V('_')], T), V('S0'), V('S')), ('and', ('call', C('skip', V('S0'), V('S1'))),
+                                                            ('call', C('steps', T, V('S1'), V('S'))))),
+              (C('col', A('red')), ('true',)), (C('col', C('g', A('green'))), ('true',)), (C('col', A('blue')), ('true',)),
+              (C('chain', Lv, R), conj([('call', C('steps', Lv, V('S0'), V('S'))), ('call', C('col', V('S'))),
+                                        ('call', C('=', R, V('S0')))])),
+              (C('chain2', Lv, R, V('S')), conj([('call', C('steps', Lv, V('S0'), V('S'))), ('call', C('=', R, C('r', V('S0'), V('S0')))),
+                                                 ('call', C('col', V('S')))]))],
 }
 
 
@@ -136,7 +166,7 @@ def gen_template_case(rng):
     """returns (clauses, qname, qargs) using the recursive templates"""
     Q0, Q1, Q2 = V('Q0'), V('Q1'), V('Q2')
     kind = rng.choice(['member', 'member2', 'append_split', 'append_fwd', 'append_open', 'len', 'len_gen',
-                       'rev', 'walk', 'even', 'perm', 'sel', 'last', 'dup', 'dup_back'])
+                       'rev', 'walk', 'even', 'perm', 'sel', 'last', 'dup', 'dup_back', 'steps'])
     cl = []
     if kind == 'member':
         cl = TEMPLATES['member']
@@ -179,6 +209,10 @@ def gen_template_case(rng):
     elif kind == 'last':
         cl = TEMPLATES['last']
         q = ('last', [_rand_list(rng), Q0])
+    elif kind == 'steps':
+        cl = TEMPLATES['steps']
+        lst = _rand_list(rng, rng.choice([0, 1, 2, 5, 15, 16, 17, 18, 19, 25, 33, 40]))
+        q = rng.choice([('chain', [lst, Q0]), ('chain2', [lst, Q0, Q1]), ('chain2', [lst, Q0, A('blue')])])
     elif kind == 'dup':
         cl = TEMPLATES['dup']
         q = ('dup', [_rand_list(rng), Q0])
